@@ -7,6 +7,8 @@ extern "C" {
 extern int gh_lc_phase;
 extern unsigned long gh_n1;            /* number of ELF files in the first package */
 extern unsigned long gh_absent;        /* how many look-ups in the second package answered "not there" */
+extern unsigned long gh_present;       /* ... answered "there" */
+extern int gh_type2;                   /* ELF type (dwarf_reader::elf_type) of the second package's files */
 extern unsigned long gh_tasks;         /* comparison tasks created */
 extern unsigned gh_tasks_or;           /* bitwise or of the statuses of all comparison tasks */
 extern int gh_queue_ran;
